@@ -293,6 +293,15 @@ func (c *Check) Finish() {
 	for _, k := range keys {
 		fmt.Printf("KNOWN-FINDING: property=%s %s [%s]\n", c.ID, known[k].What, k)
 	}
+	if len(fresh) > 0 {
+		seenK := map[string]bool{}
+		for _, v := range fresh {
+			if !seenK[v.Key] && len(seenK) < 300 {
+				seenK[v.Key] = true
+				fmt.Printf("[%s] unlisted violation key: %q\n", c.ID, v.Key)
+			}
+		}
+	}
 	if len(fresh) > 5 {
 		fmt.Printf("[%s] %d violations found, reporting the first 5\n", c.ID, len(fresh))
 		fresh = fresh[:5]
